@@ -146,9 +146,10 @@ fn check(c: &FxCase, obs: &mut O) -> Verdict {
 pub struct RowCase { pub fx: FxCase, pub rows: Vec<(String, String, String, String, String)> } // (trade date, currency, rate, commission currency, commission rate)
 
 fn row_strategy(_t: Tier) -> BoxedStrategy<RowCase> {
-    let cur = prop_oneof![3 => Just(""), 1 => Just("CAD"), 8 => Just("USD"), 2 => Just("usd"), 1 => Just("EUR")];
+    // (codes that merely start like USD / CAD are other currencies: USDC, USDT, CADX)
+    let cur = prop_oneof![3 => Just(""), 1 => Just("CAD"), 8 => Just("USD"), 2 => Just("usd"), 1 => Just("EUR"), 1 => Just("USDC"), 1 => Just("CADX"), 1 => Just("Usdt")];
     let rate = prop_oneof![5 => Just(""), 1 => Just("1"), 1 => Just("1.0"), 2 => Just("1.2345"), 1 => Just("0.5")];
-    let ccur = prop_oneof![8 => Just(""), 1 => Just("CAD"), 3 => Just("USD"), 1 => Just("EUR")];
+    let ccur = prop_oneof![8 => Just(""), 1 => Just("CAD"), 3 => Just("USD"), 1 => Just("EUR"), 1 => Just("USDC"), 1 => Just("CADX")];
     (strategy(Tier::Quick), proptest::collection::vec((any::<u16>(), cur, rate.clone(), ccur, rate), 1..5)).prop_map(|(fx, rs)| {
         let past: Vec<Date> = fx.lookups.iter().filter(|d| **d < fx.today).cloned().collect();
         let rows = rs.into_iter().map(|(ix, c, r, cc, cr)| { let d = if ix % 8 == 0 && !fx.lookups.is_empty() { fx.lookups[ix as usize % fx.lookups.len()] } else if past.is_empty() { fx.today - Duration::days(30) } else { past[ix as usize % past.len()] }; (d.to_string(), c.to_string(), r.to_string(), cc.to_string(), cr.to_string()) }).collect();
